@@ -7,6 +7,7 @@ from gen import trxd_consts
 ID = "C13"
 LEVEL = "proof"
 LEAN_MODULES = ["OsmoVerif.Props.C13"]
+DRIVER_MODULES = ["Trxd"]
 LEAN_MODEL_MODULES = ["OsmoVerif.Model.Trxd", "OsmoVerif.Spec.TrxdRanges", "OsmoVerif.Lemmas.Trxd"]
 ASSUMPTIONS = [
     "theorems are about OsmoVerif.Model.Trxd (hand model of Msg/TxMsg/RxMsg.validate, gen_msg and DATAInterface.send_msg; fields are Python ints or None, bursts are bytes / array('b'))",
